@@ -99,14 +99,15 @@ def design_level(rep, tier):
             raise V.ToolError("the deviation %s is open but the model does not reproduce it" % DEV)
         rep.notes.append("MC_TestRunner impl (%s): %d states; property holds weakened by the witness of %s only; "
                          "un-weakened it is violated (TLC counterexample = the finding)" % (tier, rm.distinct, DEV))
-    for w in ("NoPass", "NoFailInLoop", "NoFailInSub", "NoUnevaluable", "NoSkipped"):
-        rv = V.tlc(MC, cfg=cfg("vac_" + w), workers=2, timeout=900, tag="C18-vac-" + w)
-        if not rv.invariant_violated:
-            raise V.ToolError("vacuous state space: witness %s is not reachable" % w)
-    for w in ("NoWrapJumpPass", "NoRtiPass", "NoBreakBitsSeen", "NoPlpFlags"):
-        rv = V.tlc(MC, cfg=cfg("vac_" + w), workers=2, timeout=900, tag="C18-vac-" + w)
-        if not rv.invariant_violated:
-            raise V.ToolError("vacuous state space (alphabet B): witness %s is not reachable" % w)
+    witnesses = ("NoPass", "NoFailInLoop", "NoFailInSub", "NoUnevaluable", "NoSkipped",
+                 "NoWrapJumpPass", "NoRtiPass", "NoBreakBitsSeen", "NoPlpFlags")        # the last four: alphabet B
+
+    def vac(w):
+        return w, V.tlc(MC, cfg=cfg("vac_" + w), workers=2, timeout=900, tag="C18-vac-" + w)
+    with concurrent.futures.ThreadPoolExecutor(max_workers=3) as ex:
+        for w, rv in ex.map(vac, witnesses):
+            if not rv.invariant_violated:
+                raise V.ToolError("vacuous state space: witness %s is not reachable" % w)
     rep.notes.append("vacuity witnesses reachable: long passing run, failure on a re-visit (loop), failure inside the subroutine, "
                      "unevaluable assertion, assertion skipped by a branch; alphabet B: passing runs through the page-wrapped jmp (ind), "
                      "through rti, with the pushed break bits read back (cpu.a == $34), with flags loaded by plp")
@@ -191,7 +192,7 @@ def main(tier):
         cid = len(jobs) + 1
         jobs.append((cid, c["prj"]))
         origin[cid] = "tlc alphabet=%s shape=%s ideal=%s" % (c.get("alphabet", "A"), c["shape"], c["ideal"])
-    g = D.Gen(rnd, long_runs=1 if tier == "quick" else 2)
+    g = D.Gen(rnd, long_runs=2 if tier == "quick" else 3)
     for _ in range(n_rand):
         cid = len(jobs) + 1
         jobs.append((cid, g.project()))
@@ -238,7 +239,7 @@ def main(tier):
     for r in good[:3]:
         rep.sample({"program": texts[r["id"]], "tests": r["obs"]["tests"], "failures": r["obs"]["failures"], "exit": r["obs"]["exit"]})
     rep.assumptions += ["flag symbols may read 1 or their mask bit: assertions whose truth depends on that are not judged",
-                        "adc/sbc with the decimal flag set (tier 2 only: hook trace against the binary-arithmetic mirror of the emulator), instructions outside Cpu!Modelled, jmp ($ffff), ram() outside 0..65535, runs longer than 20000 instructions, "
+                        "adc/sbc with the decimal flag set (tier 2 only: hook trace against the binary-arithmetic mirror of the emulator), instructions outside Cpu!Modelled, jmp ($ffff), ram() outside 0..65535, runs longer than 60000 instructions, "
                         "string-valued assertions and cycle counts are outside the specification (accepted as observed)",
                         "projects the assembler rejects are outside C18 (counted, reported as drift if the model has a layout)"]
     for x in rows:
